@@ -50,6 +50,8 @@ Record run_facts (b : bstate) (root1 : nat) (s1 : lstate) (g2 : sgraph) (s3 : ls
   rf_n : n' = NN;
   rf_rep : rep P true n0 toks b;
   rf_free : free_result (bs_ls b) root1 s1;
+  rf_prov1 : lprov (bs_ls b) s1 [root1];
+  rf_alive0 : sg_alive (ls_g (bs_ls b)) 0 = true;
   rf_ok1 : tables_ok P true s1;
   rf_pass2 : pass2 (ls_g s1) root1 = Some g2;
   rf_step2 : step_ok (ls_g s1) g2;
@@ -80,7 +82,7 @@ Proof.
   assert (Hok0 : tables_ok P true (bs_ls b)).
   { split; [exact (rp_core _ _ _ _ _ HR)|]. intros f o Hfo. rewrite (rp_tri _ _ _ _ _ HR) in Hfo. discriminate. }
   rewrite Htot in Efree.
-  destruct (add_free_spec rc _ _ _ _ _ Hok0 H0 (seq_le NN) Efree) as [Hok1 Hfree].
+  destruct (add_free_spec rc _ _ _ _ _ Hok0 H0 (seq_le NN) Efree) as [Hok1 [Hfree [Hprov1 _]]].
   pose proof (pass2_struct _ _ _ (co_inv _ _ _ (proj1 Hok1)) (co_src _ _ _ (proj1 Hok1) eq_refl) E2) as Hst2.
   pose proof (tables_ok_shrink _ _ s1 g2 Hok1 (so_inv _ _ Hst2) (fun _ => so_src _ _ Hst2) (so_sh _ _ Hst2)) as Hok2.
   assert (Hr2 : sg_alive g2 root1 = true).
